@@ -243,15 +243,25 @@ CHECKS = {
         note='Trusted: z3 (linear arithmetic with floor + uninterpreted functions); the OpenCV INTER_LINEAR / BORDER_CONSTANT contract (fixed-point '
              'weights outside); witness replay uses the real cv2 on a random image.',
         design='4/C10, 7.6'),
+    'C20': dict(
+        text='The cache bookkeeping of the transformer decoder: bounded symbolic execution of the real CustomMultiheadAttention.infer / '
+             'cached_forward, DecoderLayer.infer and Decoder.infer over a row-level model of torch (symx/rowtorch.py) in which every '
+             'operation along the embedding dimension (linear maps, head split, scaling, dot products, soft-max, weighted sums, layer '
+             'norm, ReLU) is an uninterpreted function of the rows it reads, every pure data movement (slicing, assignment into the '
+             'caches, view, transpose, chunk, bmm indexing) runs concretely and torch.empty yields fresh stale constants.  For every '
+             'step, line, depth, head count, batch size and history (fresh model; a previous batch of the same size, of a different '
+             'size, or one that ran longer) the cached result, the result recomputed from scratch and the row of the masked full '
+             'forward pass are the same term (EUF, decided syntactically or by z3), contain no stale or previous-batch constant and no '
+             'input of another line of the batch; postprocess_decoded drops everything from the first boundary symbol on and every '
+             'ignore symbol.  Bound: <= 2 layers, <= 2 heads, batch <= 2, 3 steps (quick); 3 / 3 / 3 / 4 (thorough).  Not claimed: '
+             'bit-identical floats, the encoder, the greedy loop of transcribe_batch (its termination is the explicit length cap).',
+        note='Trusted: z3 EUF; the row-level reading of torch (operations act on whole rows); the reference nn.MultiheadAttention / masked '
+             'post-norm decoder layer written from the PyTorch documentation; replay runs a random-weight real Decoder in torch and compares '
+             'cached, recomputed and masked-forward outputs numerically.',
+        design='4/C20, 7.2'),
 }
 
 NOT_APPLICABLE = {
-    'C20': 'not decided: the property needs a symbolic model of torch tensors and of torch.nn.MultiheadAttention / TransformerDecoderLayer '
-           '(~25 tensor operations, module parameter plumbing, a reference forward written from the PyTorch documentation) plus equalities of '
-           'softmax / LayerNorm terms over symbolic weights (nonlinear real arithmetic with uninterpreted exp and rsqrt); the torch shim built '
-           'here covers only cat / argmax / roll / slicing (C04), and the nonlinear queries met in C16 / C07 already failed to return in z3 at '
-           'far smaller sizes.  Not encodable within reach with the installed tooling and the time available; no other technique was substituted '
-           '(DESIGN.md 7.6).',
 }
 
 PENDING = 'check not built yet in this session (see DESIGN.md section 6 build order); no claim is made'
